@@ -989,6 +989,8 @@ async fn flaand(
     }
     drop(phi);
     drop(ki_xj_phi);
+    #[cfg(feature = "__verif")]
+    crate::verif::probe_u128s("flaand_hi", &hi[..hi.len().min(4)]);
 
     // All parties first broadcast the commitment of Hi.
     let commhi_k = broadcast(channel, i, n, "flaand comm", &commhi).await?;
